@@ -10,6 +10,12 @@ Fault kinds (counted when they FIRE, through the `on_fault` callback):
   garbage           content replaced by non-TZif bytes
   chunked(m)        legal short reads: read(n) returns at most m bytes
   unseekable        seek() raises (io.UnsupportedOperation)
+
+Files carry stat metadata (size, mtime, inode) that the code under test can
+read through os.stat / os.fstat(fileobj.fileno()) / os.path.getmtime; the
+simulator decides the modification time, so "replaced by other content of the
+same size within one tick of the file system's clock" (identical stat stamp)
+is an event it can inject (SimFS.replace_file(..., same_stamp=True)).
 """
 import errno
 import io
@@ -28,6 +34,7 @@ class SimFile(object):
         self._fault = dict(fault or {})
         self._on_fault = on_fault or (lambda kind: None)
         self._fs = fs
+        self._fd = None
         self.closed = False
         if with_name and name is not None:
             self.name = name
@@ -88,11 +95,17 @@ class SimFile(object):
     def tell(self):
         return self._pos
 
+    def fileno(self):
+        if self._fs is None or self._fd is None:
+            raise io.UnsupportedOperation("fileno")
+        return self._fd
+
     def close(self):
         if not self.closed:
             self.closed = True
             if self._fs is not None:
                 self._fs.open_handles -= 1
+                self._fs.fds.pop(self._fd, None)
 
     def __enter__(self):
         return self
@@ -117,6 +130,12 @@ class _SimPath(object):
     def isdir(self, p):
         return p.rstrip("/") in self._fs.dirs
 
+    def getmtime(self, p):
+        return self._fs.stat(p).st_mtime
+
+    def getsize(self, p):
+        return self._fs.stat(p).st_size
+
     def __getattr__(self, name):
         return getattr(posixpath, name)
 
@@ -131,6 +150,18 @@ class SimOS(object):
         self.SEEK_SET = _os.SEEK_SET
         self.SEEK_END = _os.SEEK_END
         self.sep = "/"
+        self._fs = fs
+
+    def stat(self, p, *a, **kw):
+        return self._fs.stat(p)
+
+    def lstat(self, p, *a, **kw):
+        return self._fs.stat(p)
+
+    def fstat(self, fd):
+        if fd in self._fs.fds:
+            return self._fs.stat(self._fs.fds[fd])
+        return _os.fstat(fd)
 
     def __getattr__(self, name):
         return getattr(_os, name)
@@ -139,6 +170,11 @@ class SimOS(object):
 class SimFS(object):
     def __init__(self, on_fault=None):
         self.files = {}
+        self.meta = {}            # path -> [mtime, inode]
+        self.fds = {}             # fake descriptor -> path
+        self._next_fd = 10000
+        self._next_ino = 1
+        self.clock = 1000000000   # the file system's own (coarse) clock
         self.dirs = set()
         self.faults = {}
         self.open_handles = 0
@@ -149,10 +185,33 @@ class SimFS(object):
 
     def add_file(self, path, data):
         self.files[path] = data
+        self.clock += 1
+        self.meta[path] = [self.clock, self._next_ino]
+        self._next_ino += 1
         d = posixpath.dirname(path)
         while d and d != "/":
             self.dirs.add(d)
             d = posixpath.dirname(d)
+
+    def replace_file(self, path, data, same_stamp=False):
+        """New content under the same name. same_stamp: written in place
+        within one tick of the file system clock (same inode, same mtime;
+        the size is whatever len(data) is)."""
+        self.files[path] = data
+        if not same_stamp or path not in self.meta:
+            self.clock += 1
+            self.meta[path] = [self.clock, self._next_ino]
+            self._next_ino += 1
+
+    def stat(self, path):
+        self.stats += 1
+        if path not in self.files:
+            raise FileNotFoundError(errno.ENOENT,
+                                    "No such file or directory", path)
+        mtime, ino = self.meta.get(path, (0, 0))
+        size = len(self.files[path])
+        return _os.stat_result((0o100644, ino, 1, 1, 0, 0, size, mtime,
+                                mtime, mtime))
 
     def arm(self, path, fault):
         self.faults[path] = dict(fault)
@@ -190,6 +249,9 @@ class SimFS(object):
         self.open_handles += 1
         sf = SimFile(self.files[path], name=path, fault=f,
                      on_fault=self.on_fault, fs=self)
+        sf._fd = self._next_fd
+        self._next_fd += 1
+        self.fds[sf._fd] = path
         if "b" in mode:
             return sf
         return _TextOver(sf)
